@@ -778,6 +778,72 @@ class Streams:
                 self.disagree("fixup_strided_conv", f"H,W,C,kh,kw,O,sy,sx,pad,pos={desc}: real '{real}'",
                               {"stream": "sconv", "case": desc, "semantic_request": (sq or "")[:600]}, sm, key=key if sm.startswith("fail") else None)
 
+
+    # ---- 7. dilation above 2 in software (fixup_dilation_gt2) -------------------------------------------------------
+    def stream_dilation(self, n):
+        from ethosu.vela import tflite_graph_optimiser as go
+        from ethosu.vela.data_type import DataType
+        from ethosu.vela.operation import Op, Padding
+        from ethosu.vela.tensor import create_const_tensor
+
+        ck, rng = self.ck, self.rng
+        rows = []
+        for i in range(n):
+            kind = rng.choice("ccd")
+            dt = rng.choice([DataType.int8, DataType.uint8, DataType.uint8])
+            kh, kw = rng.choice([(1, 1), (2, 2), (3, 3), (3, 3), (1, 3), (2, 3), (3, 1)])
+            dh, dw = rng.choice([1, 2, 3, 3, 4, 5, 6]), rng.choice([1, 2, 3, 3, 4, 5, 6])
+            C = rng.choice([1, 2, 3])
+            O = rng.choice([1, 2])
+            H, W = rng.randint(1, 6), rng.randint(1, 6)
+            zpw = 0 if dt == DataType.int8 else rng.choice([0, 128, rng.randint(1, 255)])
+            ifm = self.tens([1, H, W, C], dt, 0.05, 3, "ifm")
+            wshape = [kh, kw, C, O] if kind == "c" else [kh, kw, C, 1]
+            lo, hi = self.qrange(dt)
+            wv = np.random.RandomState(rng.getrandbits(32)).randint(lo, hi + 1, wshape)
+            wt = self.const(wshape, dt, wv, 0.01, zpw, "w")
+            nout = O if kind == "c" else C
+            bias = create_const_tensor("b", [nout], DataType.int32, [0] * nout)
+            ofm = self.tens([1, H, W, nout], dt, 0.1, 0, "ofm")
+            attrs = {"padding": Padding.SAME, "stride_w": 1, "stride_h": 1, "dilation_w_factor": dw, "dilation_h_factor": dh,
+                     "strides": (1, 1, 1, 1), "dilation": (1, dh, dw, 1)}
+            if kind == "d":
+                attrs["depth_multiplier"] = 1
+            op = self.testutil.create_op(Op.Conv2DBias if kind == "c" else Op.DepthwiseConv2DBias, [ifm, wt, bias], ofm, attrs)
+            op.run_on_npu = True
+            sem = None
+            try:
+                out = go.fixup_dilation_gt2(op, self.arch, None)
+                nv = np.asarray(out.weights.values)
+                dw2, dh2 = out.get_kernel_dilation()
+                if (dw2, dh2) == (dw, dh) and list(nv.shape) == wshape:
+                    real = "none"
+                else:
+                    scw = (nv.shape[1] - 1) // (kw - 1) if kw > 1 else dw // dw2
+                    sch = (nv.shape[0] - 1) // (kh - 1) if kh > 1 else dh // dh2
+                    real = f"ok {dw2} {dh2} {scw} {sch} {nv.shape[1]} {nv.shape[0]}"
+                    if list(out.weights.shape) != list(nv.shape) or tuple(out.attrs["dilation"]) != (1, dh2, dw2, 1):
+                        real = "?attrs " + real
+                    sem = (f"rwsem_dilation {kind} {H} {W} {C} {kh} {kw} {O} {dh} {dw} {nv.shape[0]} {nv.shape[1]} {dh2} {dw2} {zpw} "
+                           f"{','.join(map(str, wv.reshape(-1)))} {','.join(map(str, nv.reshape(-1)))} {rng.getrandbits(16)}")
+            except Exception as e:  # noqa: B902
+                real = "raises:" + type(e).__name__
+            rows.append(((kind, self.dtname(dt), H, W, C, kh, kw, O, dh, dw, zpw), f"rw_dilation {kw} {kh} {dw} {dh}", real, sem))
+        outs = self.model([r[1] for r in rows])
+        sem_outs = iter(self.model([r[3] for r in rows if r[3] is not None]))
+        for (desc, rq, real, sq), m in zip(rows, outs):
+            self.evaluations += 1
+            sm = next(sem_outs) if sq is not None else "not-rewritten"
+            ck.count("rw_dilation_cases")
+            ck.count("rw_dilation_" + m.split()[0])
+            self.nontrivial.add(("dilation",) + desc)
+            key = None
+            if sm.startswith("fail") and desc[1] == "u8" and desc[-1] != 0:
+                key = "software-dilation:inserted-taps-zero-instead-of-weight-zero-point"
+            if m != real or sm.startswith("fail") or sm.startswith("err"):
+                self.disagree("fixup_dilation_gt2", f"kind,dtype,H,W,C,kh,kw,O,dh,dw,weight zp={desc}: model '{m}', real '{real}'",
+                              {"stream": "dilation", "case": desc, "request": rq, "semantic_request": (sq or "")[:400]}, sm, key=key)
+
     # ---- driver ------------------------------------------------------------------------------------
     def run(self):
         t = self.ck.thorough
@@ -789,6 +855,7 @@ class Streams:
         self.stream_concat_split(3000 if t else 500)
         self.stream_dw2conv(1000 if t else 200)
         self.stream_strided_conv(4000 if t else 600)
+        self.stream_dilation(1500 if t else 300)
 
 
 def run(ck):
